@@ -7,6 +7,7 @@ import (
 	"fmt"
 	"io"
 	"reflect"
+	"strings"
 	"unsafe"
 
 	"github.com/philpearl/avro"
@@ -242,7 +243,8 @@ func runC07(c *core.Ctx, i int) {
 		return
 	}
 	// the same intact file through readers that return short reads / one byte at a time
-	for shape, rd := range []avro.Reader{bufio.NewReaderSize(&oneByteReader{b: cf.file}, 16), bufio.NewReaderSize(&eofTogetherReader{b: cf.file}, 16), bufio.NewReader(&oneByteReader{b: cf.file})} {
+	for shape, rd := range []avro.Reader{bufio.NewReaderSize(&oneByteReader{b: cf.file}, 16), bufio.NewReaderSize(&eofTogetherReader{b: cf.file}, 16), bufio.NewReader(&oneByteReader{b: cf.file}),
+		bytes.NewBuffer(append([]byte(nil), cf.file...)), strings.NewReader(string(cf.file))} {
 		o := readCollect(rd, rt, -1, nil)
 		c.Eval(1)
 		if o.pan != nil || o.err != nil || cmpVals(cf.t, want, o.vals) != "" {
@@ -542,14 +544,20 @@ func c08big(c *core.Ctx, i int) {
 			}
 		}
 		prefix := file[:cut]
-		for shape := 0; shape < 2; shape++ {
+		for shape := 0; shape < 4; shape++ {
 			var rd avro.Reader = bytes.NewReader(prefix)
-			if shape == 1 {
-				rd = bufio.NewReaderSize(&eofTogetherReader{b: prefix}, 4096)
+			name := "bytes.Reader"
+			switch shape {
+			case 1:
+				rd, name = bufio.NewReaderSize(&eofTogetherReader{b: prefix}, 4096), "bufio over a reader returning data and EOF together"
+			case 2:
+				rd, name = bytes.NewBuffer(append([]byte(nil), prefix...)), "bytes.Buffer"
+			case 3:
+				rd, name = strings.NewReader(string(prefix)), "strings.Reader"
 			}
 			o := readCollect(rd, rt, -1, nil)
 			c.Eval(1)
-			what := fmt.Sprintf("cut at %d of %d (reader shape %d)", cut, len(file), shape*2)
+			what := fmt.Sprintf("cut at %d of %d (reader: %s)", cut, len(file), name)
 			switch {
 			case o.pan != nil:
 				c.Violate("panic", fmt.Sprintf("%s: panic %v [%s]", what, o.pan, cf.desc), nil)
@@ -624,7 +632,7 @@ func runC08(c *core.Ctx, i int) {
 			}
 		}
 		prefix := cf.file[:cut]
-		for shape := 0; shape < 3; shape++ {
+		for shape := 0; shape < 5; shape++ {
 			var rd avro.Reader
 			switch shape {
 			case 0:
@@ -633,6 +641,10 @@ func runC08(c *core.Ctx, i int) {
 				rd = bufio.NewReaderSize(&oneByteReader{b: prefix}, 16)
 			case 2:
 				rd = bufio.NewReaderSize(&eofTogetherReader{b: prefix}, 16)
+			case 3:
+				rd = bytes.NewBuffer(append([]byte(nil), prefix...)) // shape 3: *bytes.Buffer
+			case 4:
+				rd = strings.NewReader(string(prefix)) // shape 4: *strings.Reader
 			}
 			o := readCollect(rd, rt, -1, nil)
 			c.Eval(1)
@@ -704,7 +716,7 @@ func init() {
 	core.Register(&core.Prop{
 		ID:        "C08",
 		Level:     "fault_enumeration",
-		Technique: "runtime monitoring with exhaustive crash-point enumeration: every prefix 0..len of every generated file is read through three reader shapes; delivered records and success/error are judged against block boundaries computed by the independent container parser",
+		Technique: "runtime monitoring with exhaustive crash-point enumeration: every prefix 0..len of every generated file is read through five reader shapes (bytes.Reader, bufio over a one-byte reader, bufio over a reader that returns data and EOF together, bytes.Buffer, strings.Reader); delivered records and success/error are judged against block boundaries computed by the independent container parser",
 		Rule: "per file (reference writer and library encoder; all codecs; 0..7 blocks; 1- and 2-byte count varints; multi-byte length varints): every cut position x {bytes.Reader, bufio over a one-byte-at-a-time reader, reader returning data together with io.EOF}; " +
 			"distinct_nontrivial = distinct files whose every cut was enumerated",
 		Explanation: "Expected at cut c: exactly the records of the blocks whose payload ends at or before c, unmodified and in order; nil error iff c is the end of the header or of a block.",
